@@ -278,6 +278,18 @@ func (st *programState) pushReceiver(name string, monetary *big.Int) {
 	st.Receivers = append(st.Receivers, Receiver{Name: name, Monetary: monetary})
 }
 
+// Amount the given account has already been asked to give earlier in the statement
+// currently being executed (an account can be named more than once in a source)
+func (st *programState) alreadySentBy(name string) *big.Int {
+	total := new(big.Int)
+	for _, sender := range st.Senders {
+		if sender.Name == name {
+			total.Add(total, sender.Monetary)
+		}
+	}
+	return total
+}
+
 func (st *programState) runStatement(statement parser.Statement) ([]Posting, InterpreterError) {
 	st.Senders = nil
 	st.Receivers = nil
@@ -444,6 +456,8 @@ func (s *programState) sendAllToAccount(accountLiteral parser.ValueExpr, ovedraf
 
 	// we sent balance+overdraft
 	sentAmt := new(big.Int).Add(balance, ovedraft)
+	// minus what the same account already gave earlier in this statement
+	sentAmt.Sub(sentAmt, s.alreadySentBy(*account))
 	s.pushSender(*account, sentAmt)
 	return sentAmt, nil
 }
@@ -531,6 +545,8 @@ func (s *programState) trySendingToAccount(accountLiteral parser.ValueExpr, amou
 
 		// that's the amount we are allowed to send (balance + overdraft)
 		safeSendAmt := new(big.Int).Add(balance, overdraft)
+		// minus what the same account already gave earlier in this statement
+		safeSendAmt.Sub(safeSendAmt, s.alreadySentBy(*account))
 		actuallySentAmt = utils.MinBigInt(safeSendAmt, amount)
 	}
 
